@@ -1507,9 +1507,8 @@ func (e *Exec) scap(t string) string {
 // elemIdx is the absolute index of element i of a slice with offset off. A symbolic offset goes through the
 // uninterpreted 'idx' (axiom idx(o,i) = o+i) so that quantifier triggers never contain interpreted arithmetic.
 func elemIdx(off, i string) string {
-	if off == "0" {
-		return i
-	}
+	// always through idx (even for offset 0): invariants written over x[j] use (idx off j) with a symbolic offset,
+	// and E-matching can only connect them to an access of the code if that access has the same shape
 	return "(idx " + off + " " + i + ")"
 }
 
